@@ -1109,6 +1109,12 @@ impl Engine for C18 {
                     }
                     Op::Batch { items }
                 }
+                // rarely a large batch in the middle of a history (onto a tree that already has a shape)
+                "lazy" if g.rng.chance(1, 400) => {
+                    let n = *g.rng.pick(&[40u32, 130, 300]);
+                    let base = 30_000_000 + i64::from(g.rng.below(4) as u32) * 1000;
+                    Op::BulkBatch { n, base, hash_base: (1 << 34) + g.rng.below(4) * 1000 }
+                }
                 "lazy" => Op::Lazy,
                 "proofs" => Op::Proofs,
                 "restart_mem" => Op::RestartMem,
